@@ -431,6 +431,16 @@ Section Atomic.
   Notation wserve := (po_wserve rvs post has_sub slip foreign).
   Notation stamped := (po_stamped rvs).
 
+  (* where the ops of a /status batch come from: computed (together with the body ops) from the body [fresh] the operator held
+     before the JSON phase; [seen], the body whose version the /status batch tests, is [fresh] itself or what the server
+     answered to the body batch computed from [fresh] *)
+  Definition po_status_src (fns : list pfn) (seen : json) (rest : list jop) : Prop :=
+    exists fresh to_be,
+      po_run_fns fns fresh = Ok to_be /\ rest = po_status_ops has_sub (diff fresh to_be) /\
+      (seen = fresh \/
+       exists cand n, apply_ops (po_body_ops has_sub (diff fresh to_be)) fresh = Some cand /\
+                      seen = po_stamp (rvs n) (post fresh (po_pick has_sub UMain fresh cand))).
+
   (* what the history of the server says about one JSON batch *)
   Definition po_entry_ok (fns : list pfn) (e : po_wentry) : Prop :=
     match rq_payload (we_req e) with
@@ -447,7 +457,8 @@ Section Atomic.
               new = po_stamp (rvs n) (post seen (po_pick has_sub (rq_url (we_req e)) seen cand)) /\
               we_after e = Some new /\
               (rq_url (we_req e) = UMain ->
-               exists to_be, po_run_fns fns seen = Ok to_be /\ rest = po_body_ops has_sub (diff seen to_be))
+               exists to_be, po_run_fns fns seen = Ok to_be /\ rest = po_body_ops has_sub (diff seen to_be)) /\
+              (rq_url (we_req e) = UStatus -> po_status_src fns seen rest)
         | _ => we_after e = we_before e       (* rejected: the server object is not changed by it *)
         end
     end.
@@ -468,16 +479,18 @@ Section Atomic.
 
   Lemma po_atomic_status fns sops a seen :
     stamped (a_srv a) -> po_entries_ok fns (a_srv a) -> w_obj (a_srv a) = Some seen ->
+    (sops <> [] -> po_status_src fns seen sops) ->
     po_entries_ok fns (r_srv (po_json_status po_world wserve fns sops a (Some seen))).
   Proof.
-    intros Hst Hen Ho. unfold po_json_status. destruct sops as [|o l]; [exact Hen|].
+    intros Hst Hen Ho Hsrc. unfold po_json_status. destruct sops as [|o l]; [exact Hen|].
+    assert (Hsrc' : po_status_src fns seen (o :: l)) by (apply Hsrc; discriminate).
     destruct (po_stamped_rv _ _ Hst Ho) as [Hrv _]. rewrite Hrv.
     unfold po_call. destruct (wserve (a_srv a) _) as [resp w'] eqn:E.
     pose proof (po_wstep_json rvs post has_sub slip foreign rvs_inj _ _ _ _ _ _ Hst Ho E) as H.
     destruct resp as [new| | |c]; cbn [r_srv po_finish a_srv].
     - destruct H as (cand & Hc & Hn & Hh & _ & _). eapply po_entries_snoc; [exact Hen | exact Hh|].
       unfold po_entry_ok; cbn. eexists _, _. split; [reflexivity|].
-      exists seen, cand, (Datatypes.S (w_ctr (a_srv a))). repeat split; try assumption. intros H'; discriminate.
+      exists seen, cand, (Datatypes.S (w_ctr (a_srv a))). repeat split; try assumption; [intros H'; discriminate | intros _; exact Hsrc'].
     - destruct H as (bf & Hh & _). eapply po_entries_snoc; [exact Hen | exact Hh|].
       unfold po_entry_ok; cbn. eexists _, _. split; reflexivity.
     - destruct H as (bf & Hh & _). eapply po_entries_snoc; [exact Hen | exact Hh|].
@@ -493,7 +506,11 @@ Section Atomic.
   Proof.
     intros Hst Hen Ho Hf. unfold po_json_phase. rewrite Hf.
     destruct (po_as_json_patch diff fns (Some seen)) as [ops| | |] eqn:Eops; try exact Hen.
-    destruct (po_body_ops has_sub ops) as [|o l] eqn:Eb; [apply po_atomic_status; assumption|].
+    assert (Hsrc0 : po_status_ops has_sub ops <> [] -> exists to_be, po_run_fns fns seen = Ok to_be /\ ops = diff seen to_be).
+    { intros Hne. apply (po_as_json_inv _ _ _ _ Eops). intros ->. apply Hne. destruct has_sub; reflexivity. }
+    destruct (po_body_ops has_sub ops) as [|o l] eqn:Eb.
+    { apply po_atomic_status; try assumption. intros Hne. destruct (Hsrc0 Hne) as (to_be & Hrun & Hops).
+      exists seen, to_be. split; [exact Hrun|]. split; [rewrite Hops; reflexivity | left; reflexivity]. }
     destruct (po_stamped_rv _ _ Hst Ho) as [Hrv _]. rewrite Hrv.
     unfold po_call. destruct (wserve (a_srv a) _) as [resp w'] eqn:E.
     pose proof (po_wstep_json rvs post has_sub slip foreign rvs_inj _ _ _ _ _ _ Hst Ho E) as H.
@@ -502,10 +519,13 @@ Section Atomic.
     destruct resp as [new| | |c]; cbn [r_srv po_finish a_srv].
     - destruct H as (cand & Hc & Hn & Hh & Hst' & Ho').
       apply po_atomic_status; cbn [a_srv a_patched]; try assumption.
-      eapply po_entries_snoc; [exact Hen | exact Hh|].
-      unfold po_entry_ok; cbn. eexists _, _. split; [reflexivity|].
-      exists seen, cand, (Datatypes.S (w_ctr (a_srv a))). repeat split; try assumption.
-      intros _. exists to_be. split; [exact Hrun|]. rewrite <- Eb, Hops. reflexivity.
+      + eapply po_entries_snoc; [exact Hen | exact Hh|].
+        unfold po_entry_ok; cbn. eexists _, _. split; [reflexivity|].
+        exists seen, cand, (Datatypes.S (w_ctr (a_srv a))). repeat split; try assumption.
+        * intros _. exists to_be. split; [exact Hrun|]. rewrite <- Eb, Hops. reflexivity.
+        * intros H'; discriminate.
+      + intros _. exists seen, to_be. split; [exact Hrun|]. split; [rewrite Hops; reflexivity|]. right.
+        exists cand, (Datatypes.S (w_ctr (a_srv a))). split; [rewrite <- Hops, Eb; exact Hc | exact Hn].
     - destruct H as (bf & Hh & _). eapply po_entries_snoc; [exact Hen | exact Hh|].
       unfold po_entry_ok; cbn. eexists _, _. split; reflexivity.
     - destruct H as (bf & Hh & _). eapply po_entries_snoc; [exact Hen | exact Hh|].
@@ -916,3 +936,431 @@ Example po_ex_status_null_removed :
     exists final, w_obj (r_srv r) = Some final /\ po_status_of final = None /\
                   jp_get final ["spec"; "a"] = Some (JNum 1).
 Proof. cbv zeta. intros [|]; (split; [reflexivity|]; split; [vm_compute; reflexivity|]; split; [vm_compute; reflexivity|]; eexists; vm_compute; repeat split). Qed.
+
+(* ---------- completeness with a status subresource: key by key ---------- *)
+Fixpoint po_mgo (pkvs : list (string * json)) (t : obj) : obj :=
+  match pkvs with
+  | [] => t
+  | (k, JNull) :: rest => po_mgo rest (del k t)
+  | (k, v) :: rest => po_mgo rest (set k (merge (match lookup k t with Some tv => tv | None => JNull end) v) t)
+  end.
+
+Definition po_kvs (j : json) : obj := match j with JObj kvs => kvs | _ => [] end.
+Definition po_top (k : string) (j : json) : option json := lookup k (po_kvs j).
+
+Lemma po_merge_obj t p : merge t (JObj p) = JObj (po_mgo p (po_kvs t)).
+Proof.
+  unfold po_kvs. simpl. f_equal.
+Qed.
+
+Lemma po_lookup_notin {V} k (l : list (string * V)) : ~ In k (map fst l) -> lookup k l = None.
+Proof.
+  induction l as [|[k' v] l IH]; simpl; intros H; [reflexivity|].
+  destruct (String.eqb k k') eqn:E; [apply String.eqb_eq in E; subst; exfalso; apply H; left; reflexivity|].
+  apply IH. intros Hin. apply H. right. exact Hin.
+Qed.
+
+(* RFC 7386 on an object, key by key (the patch has unique keys) *)
+Lemma po_mgo_lookup p : NoDup (map fst p) -> forall t k,
+  lookup k (po_mgo p t) =
+  match lookup k p with
+  | None => lookup k t
+  | Some JNull => None
+  | Some v => Some (merge (match lookup k t with Some tv => tv | None => JNull end) v)
+  end.
+Proof.
+  induction p as [|[k0 v0] p IH]; intros Hnd t k; [reflexivity|].
+  simpl map in Hnd. inversion Hnd as [|? ? Hnotin Hnd']; subst.
+  assert (Hrest : forall t', lookup k0 (po_mgo p t') = lookup k0 t').
+  { intros t'. rewrite (IH Hnd'). rewrite (po_lookup_notin _ _ Hnotin). reflexivity. }
+  cbn [lookup]. destruct (String.eqb k k0) eqn:E.
+  - apply String.eqb_eq in E. subst k.
+    destruct v0; cbn [po_mgo]; rewrite Hrest; first [apply po_lookup_del_same | apply po_lookup_set_same].
+  - destruct v0; cbn [po_mgo]; rewrite (IH Hnd');
+      first [rewrite (po_lookup_del_other _ _ _ E) | rewrite (po_lookup_set_other _ _ _ _ E)]; reflexivity.
+Qed.
+
+Lemma po_top_merge p : NoDup (map fst p) -> forall t k,
+  po_top k (merge t (JObj p)) =
+  match lookup k p with
+  | None => po_top k t
+  | Some JNull => None
+  | Some v => Some (merge (match po_top k t with Some tv => tv | None => JNull end) v)
+  end.
+Proof. intros Hnd t k. rewrite po_merge_obj. unfold po_top. cbn [po_kvs]. apply po_mgo_lookup. exact Hnd. Qed.
+
+Lemma po_top_with_status st j k :
+  po_top k (po_with_status st j) = if String.eqb k "status" then match j with JObj _ => st | _ => None end else po_top k j.
+Proof.
+  unfold po_top, po_with_status. destruct j; cbn [po_kvs]; try (destruct (String.eqb k "status"); reflexivity).
+  destruct (String.eqb k "status") eqn:E.
+  - apply String.eqb_eq in E. subst k. destruct st; [apply po_lookup_set_same | apply po_lookup_del_same].
+  - destruct st; [apply po_lookup_set_other | apply po_lookup_del_other]; exact E.
+Qed.
+
+Lemma po_top_stamp v b k : String.eqb k "metadata" = false -> po_top k (po_stamp v b) = po_top k b.
+Proof.
+  intros E. unfold po_top, po_stamp, po_set_meta. destruct b; cbn [po_kvs lookup]; try (rewrite E; reflexivity).
+  apply po_lookup_set_other. exact E.
+Qed.
+
+Lemma po_meta_stamp v b k : String.eqb k "resourceVersion" = false -> po_meta_field k (po_stamp v b) = po_meta_field k b.
+Proof.
+  intros E. unfold po_meta_field, po_stamp, po_set_meta. destruct b; cbn [lookup String.eqb]; try (simpl; rewrite E; reflexivity).
+  rewrite po_lookup_set_same. rewrite (po_lookup_set_other _ _ _ _ E).
+  destruct (lookup "metadata" kvs) as [[]|]; reflexivity.
+Qed.
+
+Lemma po_meta_top k j : po_meta_field k j = match po_top "metadata" j with Some (JObj m) => lookup k m | _ => None end.
+Proof. unfold po_meta_field, po_top. destruct j; reflexivity. Qed.
+
+Lemma po_is_obj_merge t p : exists kvs, merge t (JObj p) = JObj kvs.
+Proof. rewrite po_merge_obj. eexists; reflexivity. Qed.
+
+Section CompleteSub.
+  Variable rvs : nat -> json.
+  Variable slip : nat.
+  Variable foreign : option json -> option json.
+  Variable diff : json -> json -> list jop.
+  Notation post := (fun (_ c : json) => c).
+  Notation wserve := (po_wserve rvs post true slip foreign).
+
+  (* what one accepted write leaves on the plain RFC server with a status subresource *)
+  Definition po_write (u : po_url) (old payload : json) (n : nat) : json :=
+    po_stamp (rvs n) (po_pick true u old (merge old payload)).
+
+  Lemma po_wserve_quiet w old u j :
+    w_obj w = Some old -> Nat.eqb (w_seen w) slip = false ->
+    wserve w (po_merge_req u j) =
+    (ROk (po_write u old j (Datatypes.S (w_ctr w))),
+     mkW (Some (po_write u old j (Datatypes.S (w_ctr w)))) (Datatypes.S (w_ctr w)) (Datatypes.S (w_seen w))
+         (w_hist w ++ [mkWe (Some old) (po_merge_req u j) (ROk (po_write u old j (Datatypes.S (w_ctr w)))) (Some (po_write u old j (Datatypes.S (w_ctr w))))])).
+  Proof. intros Ho Es. unfold po_wserve. rewrite Es, Ho. reflexivity. Qed.
+
+  (* key by key: the main write takes everything but the status from the merge, the /status write only the status *)
+  Lemma po_write_main_top old bp n k : NoDup (map fst bp) -> String.eqb k "metadata" = false ->
+    po_top k (po_write UMain old (JObj bp) n) =
+    if String.eqb k "status" then po_top "status" old else po_top k (merge old (JObj bp)).
+  Proof.
+    intros Hnd Ek. unfold po_write. rewrite (po_top_stamp _ _ _ Ek). cbn [po_pick]. rewrite po_top_with_status.
+    destruct (po_is_obj_merge old bp) as [kvs ->]. destruct (String.eqb k "status") eqn:Es; [|reflexivity].
+    unfold po_status_of, po_top. destruct old; reflexivity.
+  Qed.
+
+  Lemma po_write_status_top old v n k : (exists okvs, old = JObj okvs) -> String.eqb k "metadata" = false ->
+    po_top k (po_write UStatus old (JObj [("status", v)]) n) =
+    if String.eqb k "status" then po_top "status" (merge old (JObj [("status", v)])) else po_top k old.
+  Proof.
+    intros [okvs ->] Ek. unfold po_write. rewrite (po_top_stamp _ _ _ Ek). cbn [po_pick]. rewrite po_top_with_status.
+    destruct (String.eqb k "status") eqn:Es; [|reflexivity].
+    destruct (po_is_obj_merge (JObj okvs) [("status", v)]) as [kvs E]. rewrite E. reflexivity.
+  Qed.
+
+  Lemma po_nodup_del {V} k (l : list (string * V)) : NoDup (map fst l) -> NoDup (map fst (del k l)).
+  Proof.
+    induction l as [|[k' v] l IH]; simpl; intros H; [constructor|]. inversion H as [|? ? Hn Hd]; subst.
+    destruct (String.eqb k k'); [apply IH; exact Hd|]. simpl. constructor; [|apply IH; exact Hd].
+    intros Hin. apply Hn. clear - Hin. induction l as [|[k2 v2] l IHl]; simpl in *; [exact Hin|].
+    destruct (String.eqb k k2); [right; apply IHl; exact Hin|]. simpl in Hin. destruct Hin as [<-|Hin]; [left; reflexivity | right; apply IHl; exact Hin].
+  Qed.
+
+  Lemma po_meta_with_status st j k : po_meta_field k (po_with_status st j) = po_meta_field k j.
+  Proof. rewrite !po_meta_top. rewrite po_top_with_status. reflexivity. Qed.
+
+  Section Keys.
+    Variable patch : obj.
+    Variable obj0 : json.
+    Hypothesis Hnd : NoDup (map fst patch).
+    Hypothesis Hobj : exists okvs, obj0 = JObj okvs.
+    Let bp := del "status" patch.
+    Let ref := merge obj0 (JObj patch).
+
+    Lemma po_bp_key k : String.eqb k "status" = false -> lookup k bp = lookup k patch.
+    Proof. intros E. apply po_lookup_del_other. exact E. Qed.
+
+    (* after the main write: everything but the status is as in the reference; the status is still the old one *)
+    Lemma po_after_main n k : String.eqb k "metadata" = false ->
+      po_top k (po_write UMain obj0 (JObj bp) n) = if String.eqb k "status" then po_top "status" obj0 else po_top k ref.
+    Proof.
+      intros Ek. rewrite po_write_main_top; [|apply po_nodup_del; exact Hnd | exact Ek].
+      destruct (String.eqb k "status") eqn:Es; [reflexivity|].
+      unfold ref. rewrite !po_top_merge; [|exact Hnd | apply po_nodup_del; exact Hnd]. rewrite (po_bp_key _ Es). reflexivity.
+    Qed.
+
+    Lemma po_after_main_meta n k : String.eqb k "resourceVersion" = false ->
+      po_meta_field k (po_write UMain obj0 (JObj bp) n) = po_meta_field k ref.
+    Proof.
+      intros Ek. unfold po_write. rewrite (po_meta_stamp _ _ _ Ek). cbn [po_pick]. rewrite po_meta_with_status.
+      rewrite !po_meta_top. unfold ref. rewrite !po_top_merge; [|exact Hnd | apply po_nodup_del; exact Hnd].
+      rewrite (po_bp_key "metadata" eq_refl). reflexivity.
+    Qed.
+
+    (* the /status write on a body [old] which has the old status: the status becomes the reference's *)
+    Lemma po_after_status old v n k :
+      (exists okvs, old = JObj okvs) -> lookup "status" patch = Some v -> po_top "status" old = po_top "status" obj0 ->
+      String.eqb k "metadata" = false ->
+      po_top k (po_write UStatus old (JObj [("status", v)]) n) = if String.eqb k "status" then po_top "status" ref else po_top k old.
+    Proof.
+      intros Ho Hv Hst Ek. rewrite (po_write_status_top _ _ _ _ Ho Ek). destruct (String.eqb k "status"); [|reflexivity].
+      unfold ref. rewrite !po_top_merge; [|exact Hnd | repeat constructor; intros []]. rewrite Hv. cbn [lookup String.eqb Ascii.eqb Bool.eqb].
+      simpl lookup. rewrite Hst. reflexivity.
+    Qed.
+
+    Lemma po_after_status_meta old v n k : String.eqb k "resourceVersion" = false ->
+      po_meta_field k (po_write UStatus old (JObj [("status", v)]) n) = po_meta_field k old.
+    Proof.
+      intros Ek. unfold po_write. rewrite (po_meta_stamp _ _ _ Ek). cbn [po_pick]. apply po_meta_with_status.
+    Qed.
+
+    Lemma po_ref_no_status k : lookup "status" patch = None -> String.eqb k "status" = true -> po_top k ref = po_top "status" obj0.
+    Proof. intros Hn Ek. apply String.eqb_eq in Ek. subst k. unfold ref. rewrite po_top_merge; [|exact Hnd]. rewrite Hn. reflexivity. Qed.
+
+    Lemma po_ref_only_status k : bp = [] -> String.eqb k "status" = false -> po_top k ref = po_top k obj0.
+    Proof.
+      intros Hb Ek. unfold ref. rewrite po_top_merge; [|exact Hnd]. rewrite <- (po_bp_key _ Ek), Hb. reflexivity.
+    Qed.
+  End Keys.
+
+  (* what patch_obj does after the merge phase when there are no transformations *)
+  Lemma po_json_phase_nofns orig (a : po_acc po_world) b :
+    a_patched a = Some b -> po_truthy b = true -> (exists kvs, b = JObj kvs) ->
+    po_json_phase po_world wserve diff true [] orig a = mkRes (Returned (Some b) None) (a_log a) (a_srv a).
+  Proof.
+    intros Hp Ht [kvs ->]. unfold po_json_phase. rewrite Hp. unfold po_fresh. rewrite Ht.
+    cbn [po_as_json_patch po_body_ops po_status_ops filter po_json_status po_finish]. rewrite Hp. reflexivity.
+  Qed.
+
+  Lemma po_write_obj u old j n : exists kvs, po_write u old j n = JObj kvs.
+  Proof. unfold po_write. destruct (po_stamp_shape (rvs n) (po_pick true u old (merge old j))) as (kvs & m & E & _). exists kvs. exact E. Qed.
+
+  Theorem po_complete_sub patch b0 c0 :
+    patch <> [] -> NoDup (map fst patch) -> slip <> 0 -> slip <> 1 ->
+    let obj0 := po_stamp (rvs c0) b0 in
+    let r := patch_obj po_world wserve diff true patch [] (Some obj0) (mkW (Some obj0) c0 0 []) in
+    exists final,
+      w_obj (r_srv r) = Some final /\ r_out r = Returned (Some final) None /\ po_all_ok (r_log r) = true /\
+      (forall k, String.eqb k "metadata" = false -> po_top k final = po_top k (merge obj0 (JObj patch))) /\
+      (forall k, String.eqb k "resourceVersion" = false -> po_meta_field k final = po_meta_field k (merge obj0 (JObj patch))).
+  Proof.
+    intros Hp Hnd Hs0 Hs1 obj0. cbv zeta.
+    assert (Hobj : exists okvs, obj0 = JObj okvs).
+    { destruct (po_stamp_shape (rvs c0) b0) as (kvs & m & E & _). exists kvs. exact E. }
+    assert (E0 : Nat.eqb 0 slip = false) by (apply Nat.eqb_neq; congruence).
+    assert (E1 : Nat.eqb 1 slip = false) by (apply Nat.eqb_neq; congruence).
+    match goal with |- exists final, w_obj (r_srv ?r) = _ /\ _ =>
+      cut (exists final log w, r = mkRes (Returned (Some final) None) log w /\ w_obj w = Some final /\ po_all_ok log = true /\
+             (forall k, String.eqb k "metadata" = false -> po_top k final = po_top k (merge obj0 (JObj patch))) /\
+             (forall k, String.eqb k "resourceVersion" = false -> po_meta_field k final = po_meta_field k (merge obj0 (JObj patch))));
+      [intros (final & log & w & -> & Hw & Hl & Hk & Hm); exists final; repeat split; assumption|]
+    end.
+    unfold patch_obj, po_split. set (bp := del "status" patch).
+    destruct (lookup "status" patch) as [v|] eqn:Ev; destruct bp as [|kv bp'] eqn:Ebp.
+    - (* only the status *)
+      unfold po_merge_status, po_call. cbn [a_srv a_log a_patched].
+      rewrite (po_wserve_quiet _ obj0); [|reflexivity | exact E0]. cbn [w_ctr w_seen w_hist app].
+      rewrite (po_json_phase_nofns _ _ (po_write UStatus obj0 (JObj [("status", v)]) (Datatypes.S c0)));
+        [|reflexivity | apply po_stamp_truthy | apply po_write_obj].
+      eexists _, _, _. split; [reflexivity|]. split; [reflexivity|]. split; [reflexivity|]. split.
+      + intros k Ek. rewrite (po_after_status patch obj0 Hnd obj0 v _ k Hobj Ev eq_refl Ek).
+        destruct (String.eqb k "status") eqn:Es; [apply String.eqb_eq in Es; subst k; reflexivity|].
+        symmetry. apply po_ref_only_status; assumption.
+      + intros k Ek. rewrite po_after_status_meta by exact Ek.
+        rewrite !po_meta_top. rewrite (po_ref_only_status patch obj0 Hnd "metadata" Ebp eq_refl). reflexivity.
+    - (* the body, then the status *)
+      unfold po_call at 1. cbn [a_srv a_log a_patched].
+      rewrite (po_wserve_quiet _ obj0); [|reflexivity | exact E0]. cbn [w_ctr w_seen w_hist app].
+      unfold po_merge_status, po_call. cbn [a_srv a_log a_patched].
+      set (new1 := po_write UMain obj0 (JObj (kv :: bp')) (Datatypes.S c0)).
+      rewrite (po_wserve_quiet _ new1); [|reflexivity | exact E1]. cbn [w_ctr w_seen w_hist app].
+      rewrite (po_json_phase_nofns _ _ (po_write UStatus new1 (JObj [("status", v)]) (Datatypes.S (Datatypes.S c0))));
+        [|reflexivity | apply po_stamp_truthy | apply po_write_obj].
+      eexists _, _, _. split; [reflexivity|]. split; [reflexivity|]. split; [reflexivity|].
+      assert (Hn1 : forall k, String.eqb k "metadata" = false ->
+                              po_top k new1 = if String.eqb k "status" then po_top "status" obj0 else po_top k (merge obj0 (JObj patch))).
+      { intros k Ek. unfold new1. rewrite <- Ebp. apply po_after_main; assumption. }
+      split.
+      + intros k Ek. rewrite (po_after_status patch obj0 Hnd new1 v _ k (po_write_obj _ _ _ _) Ev (Hn1 "status" eq_refl) Ek).
+        destruct (String.eqb k "status") eqn:Es; [apply String.eqb_eq in Es; subst k; reflexivity|].
+        rewrite (Hn1 k Ek), Es. reflexivity.
+      + intros k Ek. rewrite po_after_status_meta by exact Ek. unfold new1. rewrite <- Ebp. apply po_after_main_meta; assumption.
+    - (* nothing at all: excluded *)
+      exfalso. apply Hp. destruct patch as [|[k0 v0] p]; [reflexivity|]. exfalso.
+      unfold bp in Ebp. cbn [del lookup] in Ebp, Ev. destruct (String.eqb "status" k0) eqn:E; [discriminate Ev | discriminate Ebp].
+    - (* only the body *)
+      unfold po_call at 1. cbn [a_srv a_log a_patched].
+      rewrite (po_wserve_quiet _ obj0); [|reflexivity | exact E0]. cbn [w_ctr w_seen w_hist app].
+      unfold po_merge_status.
+      rewrite (po_json_phase_nofns _ _ (po_write UMain obj0 (JObj (kv :: bp')) (Datatypes.S c0)));
+        [|reflexivity | apply po_stamp_truthy | apply po_write_obj].
+      eexists _, _, _. split; [reflexivity|]. split; [reflexivity|]. split; [reflexivity|]. split.
+      + intros k Ek. rewrite <- Ebp. rewrite (po_after_main patch obj0 Hnd _ k Ek).
+        destruct (String.eqb k "status") eqn:Es; [symmetry; apply po_ref_no_status; assumption | reflexivity].
+      + intros k Ek. rewrite <- Ebp. apply po_after_main_meta; assumption.
+  Qed.
+End CompleteSub.
+
+(* ---------- a call with transformations only: every write lands on the body the operator holds, whoever else writes ---------- *)
+Section Held.
+  Variable rvs : nat -> json.
+  Variable post : json -> json -> json.
+  Variable has_sub : bool.
+  Variable slip : nat.
+  Variable foreign : option json -> option json.
+  Variable diff : json -> json -> list jop.
+  Hypothesis rvs_inj : forall a b, jeqb (rvs a) (rvs b) = true -> a = b.
+  Variable P : json -> Prop.                   (* any property of bodies which the server's own write pipeline preserves *)
+  Hypothesis P_post : forall seen cand u n, P seen -> P (po_stamp (rvs n) (post seen (po_pick has_sub u seen cand))).
+
+  Notation wserve := (po_wserve rvs post has_sub slip foreign).
+  Notation stamped := (po_stamped rvs).
+
+  Definition po_entry_P (e : po_wentry) : Prop :=
+    match we_resp e with
+    | ROk new => exists seen, we_before e = Some seen /\ P seen /\ P new
+    | _ => we_after e = we_before e
+    end.
+  Definition po_entries_P (w : po_world) : Prop := forall e, In e (w_hist w) -> po_entry_P e.
+
+  Lemma po_entriesP_snoc w w' e : po_entries_P w -> w_hist w' = w_hist w ++ [e] -> po_entry_P e -> po_entries_P w'.
+  Proof. intros H Hh He x Hx. rewrite Hh in Hx. apply in_app_or in Hx. destruct Hx as [Hx|[<-|[]]]; [apply H; exact Hx | exact He]. Qed.
+
+  Lemma po_held_step a u rest seen (k : po_acc po_world -> po_result po_world) fns :
+    stamped (a_srv a) -> po_entries_P (a_srv a) -> w_obj (a_srv a) = Some seen -> P seen ->
+    (forall a' new, stamped (a_srv a') -> po_entries_P (a_srv a') -> w_obj (a_srv a') = Some new -> a_patched a' = Some new -> P new ->
+                    po_entries_P (r_srv (k a'))) ->
+    po_entries_P (r_srv (po_call po_world wserve a (po_json_req u (po_test (rvs (w_ctr (a_srv a))) :: rest)) true fns k)).
+  Proof.
+    intros Hst Hen Ho Hp Hk. unfold po_call. destruct (wserve (a_srv a) _) as [resp w'] eqn:E.
+    pose proof (po_wstep_json rvs post has_sub slip foreign rvs_inj _ _ _ _ _ _ Hst Ho E) as H.
+    destruct resp as [new| | |c]; cbn [r_srv].
+    - destruct H as (cand & Hc & Hn & Hh & Hst' & Ho').
+      assert (Hpn : P new) by (rewrite Hn; apply P_post; exact Hp).
+      apply (Hk _ new); cbn [a_srv a_patched]; try assumption; try reflexivity.
+      eapply po_entriesP_snoc; [exact Hen | exact Hh|]. unfold po_entry_P; cbn. exists seen. repeat split; assumption.
+    - destruct H as (bf & Hh & _). eapply po_entriesP_snoc; [exact Hen | exact Hh | reflexivity].
+    - destruct H as (bf & Hh & _). eapply po_entriesP_snoc; [exact Hen | exact Hh | reflexivity].
+    - destruct H as (bf & Hh & _). eapply po_entriesP_snoc; [exact Hen | exact Hh | reflexivity].
+  Qed.
+
+  Lemma po_held_status fns sops a seen :
+    stamped (a_srv a) -> po_entries_P (a_srv a) -> w_obj (a_srv a) = Some seen -> P seen ->
+    po_entries_P (r_srv (po_json_status po_world wserve fns sops a (Some seen))).
+  Proof.
+    intros Hst Hen Ho Hp. unfold po_json_status. destruct sops as [|o l]; [exact Hen|].
+    destruct (Hst _ Ho) as [b Hb]. rewrite Hb at 1. rewrite po_stamp_rv_of.
+    apply (po_held_step a UStatus (o :: l) seen); try assumption. intros a' new _ Hen' _ _ _. exact Hen'.
+  Qed.
+
+  Theorem po_fns_only_held fns b0 c0 :
+    let obj0 := po_stamp (rvs c0) b0 in
+    P obj0 ->
+    let r := patch_obj po_world wserve diff has_sub [] fns (Some obj0) (mkW (Some obj0) c0 0 []) in
+    (forall e, In e (w_hist (r_srv r)) -> po_entry_P e) /\
+    (forall q, In q (map fst (r_log r)) -> po_is_json q = true).
+  Proof.
+    intros obj0 Hp0 r. split.
+    - subst r. unfold patch_obj. replace (po_split has_sub []) with (@nil (string * json), @None json) by (destruct has_sub; reflexivity).
+      unfold po_merge_status, po_json_phase. cbn [a_patched a_srv]. unfold po_fresh.
+      set (w0 := mkW (Some obj0) c0 0 []).
+      assert (Hst0 : stamped w0). { intros o Ho. simpl in Ho. injection Ho as <-. eexists; reflexivity. }
+      assert (Hen0 : po_entries_P w0). { intros e []. }
+      destruct (po_as_json_patch diff fns (Some obj0)) as [ops| | |]; try exact Hen0.
+      destruct (po_body_ops has_sub ops) as [|o l]; [apply (po_held_status fns _ (mkAcc w0 [] None) obj0); try assumption; reflexivity|].
+      unfold obj0 at 1. rewrite po_stamp_rv_of.
+      apply (po_held_step (mkAcc w0 [] None) UMain (o :: l) obj0); try assumption; try reflexivity.
+      intros a' new Hst' Hen' Ho' Hpa Hpn. rewrite Hpa. apply po_held_status; assumption.
+    - subst r. unfold patch_obj. replace (po_split has_sub []) with (@nil (string * json), @None json) by (destruct has_sub; reflexivity).
+      po_explode; intros q Hq; cbn in Hq; repeat (destruct Hq as [<-|Hq]; [reflexivity|]); destruct Hq.
+  Qed.
+End Held.
+
+(* instance: the uid.  Whoever else writes (edit, delete, delete-and-recreate under the same name), a call that carries
+   transformations only never writes to an object with another uid than the one it was computed for *)
+Theorem po_fns_only_same_object rvs post has_sub slip foreign diff uid :
+  (forall a b, jeqb (rvs a) (rvs b) = true -> a = b) ->
+  (forall old cand, po_uid_field old = Some uid -> po_uid_field (post old cand) = Some uid) ->
+  forall fns b0 c0,
+    let obj0 := po_stamp (rvs c0) b0 in
+    po_uid_field obj0 = Some uid ->
+    let r := patch_obj po_world (po_wserve rvs post has_sub slip foreign) diff has_sub [] fns (Some obj0) (mkW (Some obj0) c0 0 []) in
+    forall e, In e (w_hist (r_srv r)) ->
+      match we_resp e with
+      | ROk new => exists seen, we_before e = Some seen /\ po_uid_field seen = Some uid /\ po_uid_field new = Some uid
+      | _ => we_after e = we_before e
+      end.
+Proof.
+  intros Hinj Hpost fns b0 c0 obj0 Hu r e He.
+  refine (proj1 (po_fns_only_held rvs post has_sub slip foreign diff Hinj (fun b => po_uid_field b = Some uid) _ fns b0 c0 Hu) e He).
+  intros seen cand u n Hs. pose proof (Hpost seen (po_pick has_sub u seen cand) Hs) as H.
+  rewrite po_stamp_uid; [exact H | rewrite H; discriminate].
+Qed.
+
+(* ---------- a vanished object ends patch_and_check silently as well ---------- *)
+Corollary po_pc_404_silent S serve diff has_sub patch fns orig (s0 : S) q :
+  po_patch_truthy patch fns = true ->
+  let r := patch_obj S serve diff has_sub patch fns orig s0 in
+  In (q, RNotFound) (r_log r) ->
+  po_patch_and_check S serve diff has_sub patch fns orig s0 = PcOk None None (r_log r) (r_srv r).
+Proof.
+  intros Ht r Hin. unfold po_patch_and_check. rewrite Ht. fold r.
+  destruct (po_404_silent S serve diff has_sub patch fns orig s0 q Hin) as [Ho _]. fold r in Ho. rewrite Ho. reflexivity.
+Qed.
+
+(* ---------- non-vacuity of the new theorems ---------- *)
+Lemma po_set_meta_uid u b : po_uid_field (po_set_meta "uid" u b) = Some u.
+Proof.
+  unfold po_uid_field, po_meta_field, po_set_meta. destruct b; try reflexivity.
+  rewrite po_lookup_set_same. apply po_lookup_set_same.
+Qed.
+
+(* a server pipeline which keeps the uid whatever the candidate says (the hypothesis of the same-object theorems) *)
+Definition po_ex_post (old cand : json) : json :=
+  match po_uid_field old with Some u => po_set_meta "uid" u cand | None => cand end.
+Example po_ex_post_uid : forall uid old cand, po_uid_field old = Some uid -> po_uid_field (po_ex_post old cand) = Some uid.
+Proof. intros uid old cand H. unfold po_ex_post. rewrite H. apply po_set_meta_uid. Qed.
+
+(* transformations only, the object is recreated under the same name before the JSON batch: rejected, nothing written to uid-2 *)
+Example po_ex_fns_only_recreated :
+  let obj0 := po_stamp (po_ex_rvs 0) (po_ex_obj "uid-1") in
+  let r := patch_obj po_world (po_wserve po_ex_rvs po_ex_post false 0 po_ex_recreate) po_ex_realdiff false [] po_ex_fns (Some obj0)
+                     (mkW (Some obj0) 0 0 []) in
+  (exists b, r_out r = Returned b (Some po_ex_fns)) /\
+  exists e, w_hist (r_srv r) = [e] /\ we_resp e = RUnprocessable /\ we_after e = we_before e /\
+            exists o2, we_before e = Some o2 /\ po_uid_field o2 = Some (JStr "uid-2").
+Proof. cbv zeta. split; [eexists; vm_compute; reflexivity|]. eexists. vm_compute. repeat split. eexists. split; reflexivity. Qed.
+
+(* merge-patch with a status subresource against the plain server: the hypotheses of po_complete_sub hold and both writes happen *)
+Example po_ex_complete_sub :
+  let patch := [("spec", JObj [("b", JNum 2)]); ("status", JObj [("s", JNum 1); ("old", JNull)]); ("metadata", JObj [("labels", JObj [("l", JStr "w")])])] in
+  let b0 := JObj [("metadata", JObj [("uid", JStr "uid-1")]); ("spec", JObj [("a", JNum 1)]); ("status", JObj [("old", JNum 0)])] in
+  let obj0 := po_stamp (po_ex_rvs 0) b0 in
+  let r := patch_obj po_world (po_wserve po_ex_rvs (fun _ c => c) true 9 (fun o => o)) po_ex_diff true patch [] (Some obj0) (mkW (Some obj0) 0 0 []) in
+  patch <> [] /\ NoDup (map fst patch) /\ map po_slot (map fst (r_log r)) = [0; 1]%nat /\
+  exists final, w_obj (r_srv r) = Some final /\
+                po_top "status" final = Some (JObj [("s", JNum 1)]) /\ po_top "status" (merge obj0 (JObj patch)) = Some (JObj [("s", JNum 1)]) /\
+                po_top "spec" final = po_top "spec" (merge obj0 (JObj patch)) /\ po_meta_field "labels" final = Some (JObj [("l", JStr "w")]).
+Proof.
+  cbv zeta. split; [discriminate|]. split; [repeat constructor; simpl; intuition discriminate|]. split; [vm_compute; reflexivity|].
+  eexists. vm_compute. repeat split.
+Qed.
+
+(* ---------- a limit of the split by destination path (candidate finding, reported; not a theorem of C08) ---------- *)
+(* a transformation which moves a value from the spec into the status: from_diff answers one `move` op whose PATH is under
+   /status; with a status subresource it goes to /status only, where the removal of the source is not persisted — every request
+   is accepted, nothing is carried, and the spec still holds the value *)
+Example po_ex_move_across_split :
+  let b0 := JObj [("metadata", JObj [("uid", JStr "uid-1")]); ("spec", JObj [("token", JStr "t")]); ("status", JObj [])] in
+  let obj0 := po_stamp (po_ex_rvs 0) b0 in
+  let to_be := JObj [("metadata", JObj [("uid", JStr "uid-1"); ("resourceVersion", JNum 0)]); ("spec", JObj []); ("status", JObj [("token", JStr "t")])] in
+  let fn := mkFn 0 (fun _ => Ok to_be) in
+  let diff := fun _ _ => [OMove "/spec/token" "/status/token"] in
+  apply_ops (diff obj0 to_be) obj0 = Some to_be /\
+  forall has_sub,
+    let r := patch_obj po_world (po_wserve po_ex_rvs (fun _ c => c) has_sub 9 (fun o => o)) diff has_sub [] [fn] (Some obj0) (mkW (Some obj0) 0 0 []) in
+    po_all_ok (r_log r) = true /\ (exists b, r_out r = Returned b None) /\
+    exists final, w_obj (r_srv r) = Some final /\ jp_get final ["status"; "token"] = Some (JStr "t") /\
+                  jp_get final ["spec"; "token"] = (if has_sub then Some (JStr "t") else None).
+Proof.
+  cbv zeta. split; [vm_compute; reflexivity|].
+  intros [|]; (split; [vm_compute; reflexivity|]; split; [eexists; vm_compute; reflexivity|]; eexists; vm_compute; repeat split).
+Qed.
